@@ -233,9 +233,9 @@ def roundtrip_b64(alg_i: int, flattened: bool, payload: str, b64: bool, kid_mode
     return judge(env, tok, obj, exp, alg_i, ser, payload, kid_mode, keyform, b64)
 
 
-def detach(alg_i: int, ser: int, payload: bytes) -> bool:
+def detach(alg_i: int, ser: int, hmode: int, payload: bytes) -> bool:
     """
-    PRE: 0 <= alg_i < 15 and 0 <= ser <= 2 and len(payload) <= 2
+    PRE: 0 <= alg_i < 15 and 0 <= ser <= 2 and 0 <= hmode <= 2 and len(payload) <= 2
     POST: _
     """
     rt.tick()
@@ -255,7 +255,8 @@ def detach(alg_i: int, ser: int, payload: bytes) -> bool:
                     return False
                 again = ".".join([h2, p, s2])
                 return jws.deserialize_compact(again, public_of(key), algorithms=[alg]).payload == payload
-            member = {"protected": {"alg": alg}}
+            # header placement: protected only / protected + an unprotected header / everything unprotected
+            member = [{"protected": {"alg": alg}}, {"protected": {"alg": alg}, "header": {"kid": "the-kid"}}, {"header": {"alg": alg, "kid": "the-kid"}}][hmode]
             tok = jws.serialize_json(member if ser == 1 else [member], payload, key, algorithms=[alg])
             before = ice.jcopy(tok)
             det = jws.detach_content(tok)
@@ -268,7 +269,8 @@ def detach(alg_i: int, ser: int, payload: bytes) -> bool:
                 return False
             again = dict(det)
             again["payload"] = tok["payload"]
-            return jws.deserialize_json(again, public_of(key), algorithms=[alg]).payload == payload
+            back = jws.deserialize_json(again, public_of(key), algorithms=[alg])
+            return back.payload == payload and back.members[0].headers() == {"alg": alg, **({"kid": "the-kid"} if hmode else {})}
         except ice.HarnessError:
             raise
         except Exception:  # noqa
@@ -319,7 +321,7 @@ def replay(func, call):
         alg_i, flattened, payload, b64, kid_mode, keyform, pick = args
         ser = 1 if flattened else 0
     elif func == "detach":
-        alg_i, ser, payload = args
+        alg_i, ser, hmode, payload = args
         keyform, pick = 0, 0
     else:
         return {"violated": None, "detail": "witness"}
@@ -357,8 +359,9 @@ def replay(func, call):
         try:
             use7797 = b64 is not None
             if func == "detach":
+                member = [{"protected": hdr}, {"protected": hdr, "header": {"kid": "k1"}}, {"header": {**hdr, "kid": "k1"}}][hmode]
                 tok = jws.serialize_compact(hdr, payload, skey, algorithms=[alg]) if ser == 0 else \
-                    jws.serialize_json({"protected": hdr} if ser == 1 else [{"protected": hdr}], payload, skey, algorithms=[alg])
+                    jws.serialize_json(member if ser == 1 else [member], payload, skey, algorithms=[alg])
                 det = jws.detach_content(tok)
                 if ser == 0:
                     h, p, s = tok.split(".")
